@@ -27,6 +27,8 @@ RULE = (
     "coefficient) with ties free. non-trivial = >= 2 elements share a leading exponent, or some element is zero."
 )
 LEVEL_TEXT += (" The reference ranks monomials by indeterminate index whatever the storage order of the names; polynomials with unordered name tuples are generated.")
+RULE += (" A quarter of the cases (half for lead_coefficient) carry tiny exact float coefficients c/4 * 2**-s, s in {30, 40, 60}, on "
+         "two thirds of their terms: a term is present iff its coefficient != 0, however small.")
 ASSUMPTIONS = [
     "ties of the ranking key (equal leading exponent and coefficient) may come in any order",
     "amax/amin with axis= are a known finding (see C11) and are only exercised without axis here",
@@ -50,8 +52,18 @@ def case_st(draw, only=None):
     if fn in ("sortable_proxy", "argext") and shape == ():
         shape = (4,)
     kind = draw(st.sampled_from(["i", "i", "f"]))
+    tiny = draw(st.integers(0, 1 if fn == "lead_coefficient" else 3)) == 0
+    if tiny:
+        kind = "f"
     desc = draw(gen.poly_desc(names=names, shape=shape, kind=kind, max_terms=5, max_exp=3))
     size = gen.size_of(shape)
+    if tiny and desc["terms"]:
+        # tiny but non-zero coefficients (c/4 * 2**-s, exact): a term is present iff its coefficient != 0,
+        # not iff it is "close to" zero
+        sh = draw(st.sampled_from([30, 40, 60]))
+        for t in desc["terms"]:
+            if draw(st.integers(0, 2)) > 0:
+                t[1] = [[c, sh] if c else 0 for c in t[1]]
     # make leading-term ties and zero elements common
     if desc["terms"] and draw(st.integers(0, 2)) == 0:
         for t in desc["terms"]:
